@@ -114,8 +114,8 @@ theorem QInv4.finish {U ts qs} (hi : QInv4 U none [] ts qs) {id : TaskId} {task 
     · have := hi.cnt c t hc
       simpa using this
   · intro i q hq x hx
-    obtain ⟨g1, g2, g3⟩ := hi.qg i q hq x hx
-    refine ⟨g1, ?_, ?_⟩
+    obtain ⟨g1, g2, g3, g4⟩ := hi.qg i q hq x hx
+    refine ⟨g1, ?_, ?_, ?_⟩
     · intro t ht
       rw [findTask_putTask] at ht
       split at ht
@@ -132,6 +132,16 @@ theorem QInv4.finish {U ts qs} (hi : QInv4 U none [] ts qs) {id : TaskId} {task 
       · subst e; show some task.id = some id; rw [hid]
       · have := g3 dt e hc
         cases this
+    · intro t ht
+      rw [findTask_putTask] at ht
+      split at ht
+      · cases hfx : findTask ts x with
+        | none => rw [hfx] at ht; cases ht
+        | some y =>
+          rw [hfx] at ht
+          simp only [Option.map_some, Option.some.injEq] at ht
+          rw [← ht]; rfl
+      · exact g4 t ht
 
 /-- the counter of one consumer of the finishing task is decremented -/
 theorem QInv4.wake {U f c rest ts qs} (hi : QInv4 U f (c :: rest) ts qs) {t : Task} {n : Nat}
@@ -186,8 +196,8 @@ theorem QInv4.wake {U f c rest ts qs} (hi : QInv4 U f (c :: rest) ts qs) {t : Ta
         split <;> split <;> simp_all
       omega
   · intro i q hq x hx
-    obtain ⟨g1, g2, g3⟩ := hi.qg i q hq x hx
-    refine ⟨g1, ?_, ?_⟩
+    obtain ⟨g1, g2, g3, g4⟩ := hi.qg i q hq x hx
+    refine ⟨g1, ?_, ?_, ?_⟩
     · intro t1 ht
       rw [findTask_putTask] at ht
       split at ht
@@ -203,6 +213,17 @@ theorem QInv4.wake {U f c rest ts qs} (hi : QInv4 U f (c :: rest) ts qs) {t : Ta
       rcases hsub dt hdt with e | e
       · subst e; exact g3 t hmem hcm
       · exact g3 dt e hcm
+    · intro t1 ht
+      rw [findTask_putTask] at ht
+      split at ht
+      · -- a queued task is not `Waiting (n+1)`
+        rename_i e
+        have e' : x = c := by rw [e]; exact hid
+        subst e'
+        have := g4 t hf
+        rw [hs] at this
+        simp at this
+      · exact g4 t1 ht
 
 /-- `pend` may shrink -/
 theorem QInv4.pend_nil {U f pend ts qs} (hi : QInv4 U f pend ts qs) : QInv4 U f [] ts qs :=
@@ -251,8 +272,8 @@ theorem QInv4.unfin {U id ts qs} (hi : QInv4 U (some id) [] ts qs) (hf : findTas
   · intro c t hc
     rw [hnl c]; exact hi.cnt c t hc
   · intro i q hq x hx
-    obtain ⟨g1, g2, g3⟩ := hi.qg i q hq x hx
-    refine ⟨g1, g2, ?_⟩
+    obtain ⟨g1, g2, g3, g4⟩ := hi.qg i q hq x hx
+    refine ⟨g1, g2, ?_, g4⟩
     intro dt hdt hc
     have := g3 dt hdt hc
     simp only [Option.some.injEq] at this
